@@ -18,6 +18,7 @@ import (
 	"os/exec"
 	"reflect"
 	"runtime"
+	"runtime/debug"
 	"strconv"
 	"strings"
 	"sync"
@@ -548,12 +549,15 @@ func clip(x string) string {
 // when run alone. Evidence, not proof (schedules are sampled; run also under -race by hand).
 func (s *searcher) concurrentOracle(r *hx.Rng) {
 	const G = 8
+	phase := "concurrent phase (generating)"
+	defer inCallF(func() string { return phase })()
 	lines := make([]string, G*6)
 	want := make([]string, len(lines))
 	for i := range lines {
 		lines[i] = genApiSession(r)
 		want[i] = hx.Guard(func() string { return runApi(strings.Split(strings.TrimPrefix(lines[i], "api "), ";")) })
 	}
+	phase = "concurrent phase (running): " + strings.Join(lines, " || ")
 	got := make([]string, len(lines))
 	var wg sync.WaitGroup
 	for g := 0; g < G; g++ {
@@ -596,6 +600,7 @@ func specEncode(it interface{}) []byte {
 
 func (s *searcher) encodeSpec(it interface{}) {
 	s.evals++
+	defer inCall("encodeSpec")()
 	want := specEncode(it)
 	got, err := rlp.EncodeToBytes(it)
 	var vt []string
@@ -738,6 +743,9 @@ func concMain(a map[string]string) {
 func searchMain(a map[string]string) {
 	thorough := a["tier"] == "thorough"
 	noPtrRaw = true
+	// the searcher produces garbage fast (copies of every input per mutation): collect earlier than the
+	// default so that the heap stays close to what is live
+	debug.SetGCPercent(40)
 	r := hx.NewRng(hx.SeedFromEnv() ^ 0x5ea7c4)
 	s := &searcher{distinct: map[uint64]struct{}{}, found: map[string]int{}}
 	deadline := time.Now().Add(20 * time.Second)
@@ -940,11 +948,19 @@ func searchMain(a map[string]string) {
 				continue
 			}
 			s.canonical(t, e)
+			if len(e) > 1<<18 {
+				// a very large value: one mutation, no per-byte fan-out (each would copy the whole encoding)
+				s.canonical(t, mutate(r, e))
+				continue
+			}
 			for j := 0; j < 6; j++ {
 				s.canonical(t, mutate(r, e))
 			}
+			flips := 0
 			for j := range e {
-				if e[j] == 0x80 || e[j] == 0xc0 {
+				if (e[j] == 0x80 || e[j] == 0xc0) && flips < 48 {
+					// one copy of the whole encoding per flip: bounded, large values have thousands of such bytes
+					flips++
 					m := append([]byte(nil), e...)
 					m[j] ^= 0x40
 					s.canonical(t, m)
